@@ -32,7 +32,9 @@ TRUSTED_BASE = [
     "the completeness theorems carry ONE explicit hypothesis, InverseCircuitComplete (inverse_circuit reaches |0..0> on every valid stabilizer tableau; property C11, "
     "proved on its own branch and discharged when the branches are merged)",
     "correspondence: the solver model is compared exactly (per-wire operation sequences) with the implementation on every generated target; "
-    "hfinal's executable form (driver flag zero=1) is evaluated on every input",
+    "hfinal's executable form (driver flag zero=1) is evaluated on every input; the two tableau-rewriting helpers (_time_reversed_measurement, "
+    "_add_photon_absorption) and inverse_circuit are additionally compared with their models on synthetic inputs; targets reaching rarely taken "
+    "sign-dependent branches are chosen with the model's branch tags (the tag histogram is in the evidence)",
     "harness: translation of the implementation's op sequence into the validator's input (tokens_of), numpy dense reference (n_quantum <= 8)",
 ]
 ASSUMPTIONS = ["targets with an isolated vertex are the known finding D3 (solver raises IndexError) and are evaluated only for that finding; "
@@ -298,6 +300,7 @@ def run(ctx, budget=1.0):
     res.extra["light_targets"] = n_light
     guided_targets(ctx, res, drv, SC, DC, pending, int((1400 if ctx.quick else 12000) * budget))
     helper_correspondence(ctx, res, drv, int((80 if ctx.quick else 1500) * budget))
+    solver_helper_correspondence(ctx, res, drv, SC, int((1000 if ctx.quick else 20000) * budget))
     if not ctx.quick:
         for _ in range(20):
             n = rng.randrange(14, 31)
@@ -410,6 +413,132 @@ def guided_targets(ctx, res, drv, SC, DC, pending, n_cand):
     flush(res, drv, pending)
 
 
+def _working_tableau(rng):
+    """a synthetic working tableau of the solver before the round of photon `p`: photons p+1..np-1 absorbed (|0>), the active qubits (photons
+    0..p and the emitters) in a random stabilizer state of one of three shapes — one emitter free in a single-qubit state ±X/±Y/±Z (the generator a
+    time-reversed measurement acts on is then a signed single Pauli), two emitters jointly free, or everything entangled —, random signs,
+    brought to the echelon gauge by the real `rref`.  Returns (np, ne, p, StabilizerTableau)."""
+    import graphiq.backends.stabilizer.functions.stabilizer as sfs
+    from graphiq.backends.stabilizer.tableau import StabilizerTableau
+    from harness import stabutil as su
+
+    np_, ne = rng.randrange(2, 6), rng.randrange(1, 4)
+    p = rng.randrange(np_)
+    n = np_ + ne
+    active = list(range(p + 1)) + list(range(np_, n))
+    shape = rng.randrange(3)
+    blocks = []
+    if shape == 0:
+        e = rng.choice(range(np_, n))
+        blocks.append([e])
+        blocks.append([q for q in active if q != e])
+    elif shape == 1 and ne >= 2:
+        es = rng.sample(range(np_, n), 2)
+        blocks.append(es)
+        blocks.append([q for q in active if q not in es])
+    else:
+        blocks.append(active)
+    x = np.zeros((n, n), dtype=int)
+    z = np.zeros((n, n), dtype=int)
+    r = np.zeros(n, dtype=int)
+    row = 0
+    for q in range(p + 1, np_):
+        z[row, q] = 1
+        row += 1
+    for qs in blocks:
+        if not qs:
+            continue
+        st = su.random_state(rng, len(qs)).to_stabilizer()
+        t = np.asarray(st.table).astype(int)
+        k = len(qs)
+        for i in range(k):
+            for j, q in enumerate(qs):
+                x[row, q] = t[i, j]
+                z[row, q] = t[i, k + j]
+            r[row] = int(st.phase[i])
+            row += 1
+    perm = rng.sample(range(n), n)
+    tab = StabilizerTableau([x[perm], z[perm]], r[perm])
+    tab = sfs.rref(tab)
+    return np_, ne, p, tab
+
+
+_HELPER_SOLVERS = {}
+
+
+def _helper_solver(np_, ne, SC):
+    import networkx as nx
+    from graphiq.metrics import Infidelity
+    from graphiq.solvers.time_reversed_solver import TimeReversedSolver
+    from graphiq.state import QuantumState
+
+    if (np_, ne) not in _HELPER_SOLVERS:
+        target = QuantumState(nx.path_graph(np_), rep_type="g")
+        solver = TimeReversedSolver(target=target, metric=Infidelity(target), compiler=SC())
+        solver.n_emitter, solver.n_photon = ne, np_
+        _HELPER_SOLVERS[(np_, ne)] = solver
+    return _HELPER_SOLVERS[(np_, ne)]
+
+
+def solver_helper_correspondence(ctx, res, drv, SC, count):
+    """Helper-level correspondence of the two tableau-rewriting steps of the solver: the REAL `_time_reversed_measurement` and
+    `_add_photon_absorption` are driven on synthetic working tableaux (signed, in echelon gauge, incl. the shape "the emitter-only generator is
+    ±P on one emitter") and compared with the model's functions (`solver.trm` / `solver.absorb`): resulting tableau (x, z, signs), recorded
+    operations per wire, or the class of the exception.  A disagreement is a broken correspondence of C02 (then `search` looks for a
+    solver-level failing target), not by itself a violation."""
+    from graphiq.circuit.circuit_dag import CircuitDAG
+    from harness import stabutil as su
+
+    _HELPER_SOLVERS.clear()
+    jobs = []
+    def fits(which, np_, p, tab):
+        t = np.asarray(tab.table).astype(int)
+        n = tab.n_qubits
+        nz = (t[:, :n] + t[:, n:]) > 0
+        if which == "trm":  # some generator acts on no photon
+            return bool((~nz[:, :np_].any(axis=1)).any())
+        lead = [int(np.argmax(row)) if row.any() else -1 for row in nz]  # a generator starts at the photon and acts on an emitter
+        return any(ld == p and nz[i, np_:].any() for i, ld in enumerate(lead))
+
+    for i in range(count):
+        which = "trm" if i % 2 == 0 else "absorb"
+        for attempt in range(6):
+            np_, ne, p, tab = _working_tableau(ctx.rng)
+            if fits(which, np_, p, tab) or (attempt == 0 and ctx.rng.random() < 0.1):
+                break
+        args = f"np={np_} ne={ne} photon={p} " + su.stab_args(tab)
+        solver = _helper_solver(np_, ne, SC)
+        circuit = CircuitDAG(n_emitter=ne, n_photon=np_, n_classical=1)
+        work = tab.copy()
+        try:
+            if which == "trm":
+                solver._time_reversed_measurement(circuit, work, p)
+            else:
+                solver._add_photon_absorption(circuit, work, p)
+            toks, _ = tokens_of(circuit)
+            impl = ("ok", su.stab_tuple(work), per_wire(toks), ",".join(toks))
+        except UnboundLocalError:
+            impl = ("err", "runtime")
+        except Exception as e:  # noqa: BLE001
+            impl = ("err", err_class(e))
+        jobs.append((f"solver.{which} {args}", which, args, impl))
+    n_ok = 0
+    for (ln, which, args, impl), rep in zip(jobs, drv.batch([j[0] for j in jobs])):
+        res.evaluations += 1
+        res.count("branches", f"helper:{which}:{impl[0]}")
+        if rep["_status"] != "ok":
+            got = ("err", rep.get("_err", rep["_raw"].split()[-1] if rep["_raw"] else ""))
+        else:
+            mt = [] if rep["ops"] == "-" else rep["ops"].split(",")
+            got = ("ok", su.reply_stab_tuple(rep), per_wire(mt), rep["ops"])
+        same = (impl[0] == got[0]) and (impl[1] == got[1]) and (impl[0] == "err" or impl[2] == got[2])
+        if same:
+            n_ok += impl[0] == "ok"
+            continue
+        res.exact_break(f"helper:solver.{which}", input={"args": args}, impl=str(impl[1:])[:900], model=rep["_raw"][:900])
+    res.extra["solver_helper_ok"] = n_ok
+
+
 def helper_correspondence(ctx, res, drv, count):
     """The solver model calls the model of `inverse_circuit` for its last step (emitter clean-up); `solve_sound` is therefore about the code only
     if that helper corresponds as well.  Targets reach its sign-dependent branches rarely (three or more emitters left in a correlated
@@ -453,6 +582,8 @@ def search(ctx, res, proof_broken):
     pending = []
     t0 = time.time()
     n_try = 0
+    # first the sparse block-structured targets chosen with the model's branch tags (the sign-sensitive branches of the two solver helpers)
+    guided_targets(ctx, res, drv, SC, DC, pending, 4000 if ctx.quick else 20000)
     while time.time() - t0 < (240 if ctx.quick else 1200) and not res.violations:
         n = ctx.rng.randrange(6, 10)
         g = nx.gnp_random_graph(n, ctx.rng.uniform(0.35, 0.8), seed=ctx.rng.getrandbits(30))
